@@ -320,6 +320,38 @@ def run(F, rep):
                        key="C04-D7 | %s | wait observes item count" % k)
     rep.floor("C04-D7", nw, 2, "producer-side wait loops (drain, sync_and_flush)")
 
+    # ------------------------------------------------------------ D8: per-thread compressor state carries no parameter from one call to the next
+    # Compression contexts are thread-local and reused.  Which worker compresses which part depends on the schedule,
+    # so nothing that shapes the output may survive in the context: every compression names its level itself
+    # (compress(.., level)), or sets it unconditionally right before a parameter-less call (compress2 / end_stream).
+    nz = 0
+    for k, f in F.funcs.items():
+        if not re.search(r"^ragc_core::(zstd_pool|segment_compression)::", k) or f.kind == "promoted":
+            continue
+        exz = None
+        gz = None
+        root = F.funcs.get(k.split("::{closure", 1)[0], f)
+        for bi, t in f.calls():
+            if t.get("indirect") or t["sp"].get("exp"):
+                continue
+            c = t["callee"]
+            if not re.search(r"zstd(_safe)?::.*(compress\w*|encode_all|Encoder::.*new\w*)$", c) or c.endswith("compress_bound"):
+                continue
+            exz = exz or Exprs(f)
+            gz = gz or cfg_of(f)
+            nz += 1
+            args = [exz.operand(a) for a in t["args"]]
+            names_lvl = any(contains(a, lambda x: isinstance(x, tuple) and x[0] in ("param", "upvar") and "level" in str(x[1])) for a in args)
+            ok, why = names_lvl, "the level is an argument of the call"
+            if not names_lvl:
+                sets = [b2 for b2, t2 in f.calls() if not t2.get("indirect") and t2["callee"].endswith("::set_parameter") and gz.dominates(b2, bi)
+                        and contains(exz.operand(t2["args"][1]), lambda x: isinstance(x, tuple) and x[0] in ("param", "upvar") and "level" in str(x[1]))]
+                ok = bool(sets)
+                why = "no level argument; %s" % ("level set unconditionally before the call" if ok else "the level in effect is whatever the thread's context was configured with earlier")
+            rep.ob("C04-D8", "compression in %s names its own level (nothing sticky in the per-thread context)" % k.split("::", 1)[-1], ok, detail="%s: %s" % (c.rsplit("::", 1)[-1], why),
+                   site=site_of(f, t), key="C04-D8 | %s | %s" % (k, c.rsplit("::", 1)[-1]))
+    rep.floor("C04-D8", nz, 1, "zstd compression calls in the pooled compressor")
+
     # ------------------------------------------------------------ D6
     ntok = 0
     for k in sorted(reach):
